@@ -57,7 +57,9 @@ static InclParam mkParam(const Variant& v) {
 }
 
 // returns 0/1 verdict, 2 = std::exception, 3 = other exception
-int callIncl(const ExplicitTreeAut& a0, const ExplicitTreeAut& b0, const Variant& v, std::string* what = nullptr) {
+static int callInclRaw(const ExplicitTreeAut& a0, const ExplicitTreeAut& b0, const Variant& v, std::string* what);
+int callIncl(const ExplicitTreeAut& a0, const ExplicitTreeAut& b0, const Variant& v, std::string* what = nullptr) { int r = callInclRaw(a0, b0, v, what); verif::obs((uint64_t)r + 17); return r; }
+static int callInclRaw(const ExplicitTreeAut& a0, const ExplicitTreeAut& b0, const Variant& v, std::string* what) {
   try {
     InclParam ip = mkParam(v);
     if (!v.sim) return ExplicitTreeAut::CheckInclusion(a0, b0, ip) ? 1 : 0;
